@@ -60,6 +60,13 @@ def space(size: int, pool_n: int):
     odd += [apply_(f, a), apply_(P.App(f, a), b), apply_(apply_(f, a), b), apply_(apply_(apply_(f, a), b), P.MetaVar(0)), idn(P.App(P.App(f, a), b)),
             idn(apply_(P.App(f, a), b)), apply_(idn(f), a), idn(K.nary_app(f, 2)(a, b)), apply_(K.nary_app(f, 1)(a), b), apply_(P.MetaVar(0), a),
             apply_(P.neg(a), b)]
+    # definitions headed by a pending substitution: the head of the expansion comes from the ARGUMENT
+    sub1 = P.Notation('sub1', 2, P.ESubst(P.MetaVar(0), P.EVar(1), P.MetaVar(1)), '{0}[{1}/x1]')
+    ssub1 = P.Notation('ssub1', 2, P.SSubst(P.MetaVar(0), P.SVar(1), P.MetaVar(1)), '{0}[{1}/X1]')
+    x0, x1 = P.EVar(0), P.EVar(1)
+    odd += [sub1(P.Implies(x1, x0), a), sub1(P.App(f, x1), x0), sub1(P.MetaVar(0), x0), sub1(P.neg(x1), a), sub1(P.Exists(0, x1), a),
+            ssub1(P.Implies(P.SVar(1), x0), a), ssub1(P.Mu(0, P.App(P.SVar(1), P.SVar(0))), a), P.neg(sub1(P.App(f, x1), x0)),
+            P.Instantiate(sub1.definition, frozendict({0: P.Implies(x1, x1)}))]
     # metavariables that differ only in their application-context holes (the constraint list easiest to forget)
     odd += [P.MetaVar(0, app_ctx_holes=(P.EVar(0),)), P.Implies(P.MetaVar(0, app_ctx_holes=(P.EVar(0),)), P.MetaVar(0)),
             P.neg(P.MetaVar(0, app_ctx_holes=(P.EVar(1),))), P.MetaVar(1, app_ctx_holes=(P.EVar(0), P.EVar(1)))]
